@@ -170,6 +170,23 @@ def cases(tier, seed):
                                                 "M": M, "opkind": opkind, "n": n, "neig": ncl[0], "mode": mode,
                                                 "spectrum": "deg2", "param": param, "dtype": d, "order": order,
                                                 "batch": "-", "plane": 0, "degtol": dg})
+    # ---- debug mode (xitorch.set_debug_mode(True)) during forward and backward: same gradients
+    for n in (3,):
+        for spec in ("sep", "deg2"):
+            lamd = spectrum(spec, n)
+            for mode in ("lowest", "uppest"):
+                ncl = [q for q in boundary_neigs(lamd, mode, 0.0)]
+                for neig in ncl:
+                    for opkind in ("dense", "mfree"):
+                        for M in (0, 1):
+                            for d in ("f64", "c128"):
+                                for param in ("P1", "P2"):
+                                    for order in (1, 2):
+                                        for (m, b) in (("custom_exacteig", "exactsolve"), ("exacteig", "na")):
+                                            out.append({"fam": "symeig", "method": m, "bck": b, "M": M,
+                                                        "opkind": opkind, "n": n, "neig": neig, "mode": mode,
+                                                        "spectrum": spec, "param": param, "dtype": d,
+                                                        "order": order, "batch": "-", "plane": 0, "debug": 1})
     # ---- operators that are diagonal / have a decoupled state (exactly singular shifted systems in the backward)
     for n in ((3, 5) if not thorough else (2, 3, 5, 6)):
         for basis in ("eye", "dec0", "decn"):
@@ -767,9 +784,15 @@ def run_svd(cfg):
 
 
 def run_case(cfg):
-    if cfg["fam"] == "symeig":
-        return run_symeig(cfg)
-    return run_svd(cfg)
+    import xitorch
+    if cfg.get("debug"):
+        xitorch.set_debug_mode(True)        # the forward call and every backward pass run in debug mode
+    try:
+        if cfg["fam"] == "symeig":
+            return run_symeig(cfg)
+        return run_svd(cfg)
+    finally:
+        xitorch.set_debug_mode(False)
 
 
 def coverage_extra(tier, seed, results):
